@@ -31,10 +31,46 @@ theorem stored_relative (s p : Str) (h : sanitizeArcname s = some p) :
     (storedName p).head? ≠ some '/' :=
   stored_not_absolute p (sanitize_not_absolute s p h).1
 
+/-- `writestr`/`writef`: a name the gate accepts is stored as a relative member name — so the
+    second sentence of the property ("no archive produced through these calls contains an
+    absolute member name") holds for these two calls too, for every string -/
+theorem gate_stored_relative (s : Str) (h : checkArchivePath s = true) :
+    (storedName s).head? ≠ some '/' :=
+  stored_not_absolute s (check_head s h)
+
+/-- where an accepted name ends up, by the independent definition: a path made of plain
+    components only (none empty, none `.`, none `..`) under the archive root — "stays inside"
+    is not just "depth never negative" but "resolves to a place inside" -/
+theorem accepted_resolves_inside (s : Str) (h : checkArchivePath s = true) :
+    ∃ r, Spec.resolve [] (splitSlash s) = some r ∧ ∀ c ∈ r, cleanComp c := by
+  rw [check_eq_oracle] at h
+  unfold Spec.nameStaysInside at h
+  have hh : (Spec.resolve [] (splitSlash s)).isSome = true := by
+    cases s with
+    | nil => simpa using h
+    | cons c rest =>
+      by_cases hc : c = '/'
+      · subst hc; simp at h
+      · split at h
+        · rename_i heq; simp at heq; exact absurd heq.1 hc
+        · exact h
+  obtain ⟨r, hr⟩ := Option.isSome_iff_exists.mp hh
+  exact ⟨r, hr, resolve_clean _ [] r hr (by simp)⟩
+
+/-- the gate's depth walk is monotone in the starting depth: a name that stays inside the
+    archive root stays inside any directory it is placed under -/
+theorem walk_monotone (ps : List Str) (d k : Nat) (h : depthWalk d ps = true) :
+    depthWalk (d + k) ps = true :=
+  depthWalk_mono ps d k h
+
 /- non-vacuity -/
 example : sanitizeArcname "/C:/tmp//x/../y".toList = some "tmp//x/../y".toList ∧
     storedName "tmp//x/../y".toList = "tmp/x/../y".toList := by decide
 example : checkArchivePath "a/../b/./c".toList = true ∧ checkArchivePath "a/../../b".toList = false ∧
     checkArchivePath "/a".toList = false ∧ checkArchivePath "..".toList = false := by decide
+
+example : checkArchivePath "a/b/../c".toList = true ∧
+    Spec.resolve [] (splitSlash "a/b/../c".toList) = some ["a".toList, "c".toList] ∧
+    storedName "a/b/../c".toList = "a/b/../c".toList := by decide
 
 end SevenZ.C16
